@@ -25,6 +25,9 @@ type caseCfg struct {
 	DecIntMs  [2]int64 // decay interval of d1, d2 (multiples of the resolution)
 	DecSub    [2]int   // fixed decrement per decay round
 	BumpMax   int
+	// SplitClock: the decayer is configured with a clock of its own (DecayerCfg.Clock) that never moves,
+	// the manager with the one the history advances (WithClock); such histories use no decaying tags
+	SplitClock bool
 }
 
 // op: one generated operation. Generation never looks at the state of the manager (the manager breaks
@@ -177,11 +180,15 @@ type rig struct {
 
 func newRig(cfg caseCfg, wantGid bool, bumpHook func(v coreconnmgr.DecayingValue, delta int), decayHook func(v coreconnmgr.DecayingValue)) (*rig, error) {
 	g := &rig{cfg: cfg, clk: clock.NewMock()}
+	var decClk clock.Clock = g.clk
+	if cfg.SplitClock {
+		decClk = clock.NewMock()
+	}
 	cm, err := connmgr.NewConnManager(cfg.Low, cfg.High,
 		connmgr.WithClock(g.clk),
 		connmgr.WithGracePeriod(time.Duration(cfg.GraceMs)*time.Millisecond),
 		connmgr.WithSilencePeriod(time.Duration(cfg.SilenceMs)*time.Millisecond),
-		connmgr.DecayerConfig(&connmgr.DecayerCfg{Resolution: time.Duration(cfg.ResMs) * time.Millisecond, Clock: g.clk}))
+		connmgr.DecayerConfig(&connmgr.DecayerCfg{Resolution: time.Duration(cfg.ResMs) * time.Millisecond, Clock: decClk}))
 	if err != nil {
 		return nil, err
 	}
